@@ -459,6 +459,26 @@ def run(repo='/repo', tier='quick'):
             res.check(started, 'C07.l', '%s:decompress(%s)' % (n, X), 'time_before is set to the current time before the call',
                       '%s hands data to the decompressor %s without having stored the current time in its time_before: the callback charges `now - time_before` to the budget, i.e. the time since the zero-initialised value (1970), truncated to 32 bits - whether an honest body is cut off as a "compression bomb" depends on the wall clock' % (n, X), c['loc'])
     res.floor('C07.l', 'hand-overs of body data to a decompressor chain', nl, 2)
+    # ---- C07.m the divisor of the bomb ratio test is current
+    res.rule('C07.m', 'the compression-bomb ratio test divides by an up-to-date wire count: on each side the bytes handed to the decompressor have been added to {request,response}_message_len before the decompressor (whose callback compares the decompressed total with 2048 x that count) runs - inside the hand-over function in front of the decompress call, or in every caller in front of the hand-over')
+    for side, fld in (('req', 'request_message_len'), ('res', 'response_message_len')):
+        ex = db.get('htp_tx_%s_process_body_data_ex' % side)
+        dom = C.dominators(ex)
+        decs = ex.calls('htp_gzip_decompressor_decompress')
+        res.floor('C07.m', 'decompress calls in htp_tx_%s_process_body_data_ex' % side, len(decs), 1)
+        adds = [(b, i) for b, i, w in P.field_writes(ex, fld) if w.get('op') == '+=']
+        inside = bool(adds) and all(any((ab in dom[b] and ab != b) or (ab == b and ai < i) for ab, ai in adds) for b, i, c in decs)
+        if inside:
+            res.holds('C07.m', '%s:counted-inside-before-decompression' % ex.name, '%s is advanced in %s in front of the decompress call' % (fld, ex.name), ex.loc)
+            continue
+        for f, b, i, c in db.callers(ex.name):
+            if is_lit(c['args'][1], 0):
+                continue                                   # end-of-body marker: no bytes
+            n3 = P.K(c['args'][2])
+            d2 = C.dominators(f)
+            before = any(w.get('op') == '+=' and P.K(w['r']) == n3 and ((b2 in d2[b] and b2 != b) or (b2 == b and i2 < i)) for b2, i2, w in P.field_writes(f, fld))
+            res.check(before, 'C07.m', '%s:counts-%s-before-hand-over' % (f.name, n3), '%s += %s precedes the hand-over' % (fld, n3),
+                      '%s hands %s body bytes to %s before they are added to %s (or never adds them): while they are being decompressed the bomb test divides by a count that does not include them - 0 for the first piece of a body, so a request whose first piece inflates past the bomb limit is refused whatever its ratio, and the same body passes in smaller pieces' % (f.name, n3, ex.name, fld), c['loc'])
     return res
 
 
